@@ -214,6 +214,58 @@ func c19R2(c *Ctx, r *Report) {
 		})
 		r.Check(ok && commentTok != nil, rule, core.Name(), "skips tokens of kind COMMENT_TOKEN", c.pos(core.Decl.Pos()), "the comment-skipping loop no longer tests for COMMENT_TOKEN")
 	}
+	// every subscript of the token slice outside the raw accessors uses an index that came from
+	// nextNonCommentIndex, or is the last token / the token before the cursor
+	if core != nil {
+		for _, fn := range c.AllFns(pkgParserRel) {
+			nm := fn.Obj.Name()
+			if nm == "peekRaw" || nm == "advanceRaw" || nm == "nextNonCommentIndex" {
+				continue
+			}
+			info := fn.Info()
+			fromCore := map[types.Object]bool{}
+			tainted := map[types.Object]bool{}
+			ast.Inspect(fn.Decl.Body, func(nd ast.Node) bool {
+				as, ok := nd.(*ast.AssignStmt)
+				if !ok {
+					return true
+				}
+				for i, l := range as.Lhs {
+					id, ok := l.(*ast.Ident)
+					if !ok || i >= len(as.Rhs) {
+						continue
+					}
+					o := info.Defs[id]
+					if o == nil {
+						o = info.Uses[id]
+					}
+					if call, ok := ast.Unparen(as.Rhs[i]).(*ast.CallExpr); ok && isCallTo(info, call, core.Obj) {
+						fromCore[o] = true
+					} else {
+						tainted[o] = true
+					}
+				}
+				return true
+			})
+			ast.Inspect(fn.Decl.Body, func(nd ast.Node) bool {
+				ix, ok := nd.(*ast.IndexExpr)
+				if !ok || fieldOf(info, ix.X) != toks {
+					return true
+				}
+				okIdx := false
+				switch e := ast.Unparen(ix.Index).(type) {
+				case *ast.Ident:
+					o := info.Uses[e]
+					okIdx = fromCore[o] && !tainted[o]
+				case *ast.BinaryExpr:
+					s := exprStr(e)
+					okIdx = e.Op == token.SUB && (strings.HasPrefix(s, "len(") || (nm == "previous" && fieldOf(info, e.X) == cur))
+				}
+				r.Check(okIdx, rule, fn.Name(), "subscript "+exprStr(ix), c.pos(ix.Pos()), "the token slice is indexed with a position that did not come from nextNonCommentIndex: the token read can be a comment, so a comment at that place changes the parse")
+				return true
+			})
+		}
+	}
 	// raw accessors are called only from the doc-comment collector (and from each other)
 	rawOK := map[string]bool{"collectCommentGroup": true, "matchRaw": true, "peekRaw": true, "advanceRaw": true}
 	for _, nm := range []string{"peekRaw", "advanceRaw", "matchRaw"} {
